@@ -329,7 +329,7 @@ type work struct {
 func queries(c *lib.Ctx) []work {
 	var out []work
 	all := qm.VariantNames
-	if c.Quick() {
+	{
 		g := &qm.Gen{DB: qm.Variants()["small"]}
 		d1, d2 := g.QuickQueries()
 		for _, q := range d1 {
@@ -346,8 +346,12 @@ func queries(c *lib.Ctx) []work {
 				out = append(out, work{ss[(k/3)%len(ss)], all[:3]})
 			}
 		}
-		return out
+		if c.Quick() {
+			return out
+		}
 	}
+	// thorough: the quick set first, then the complete depth-2 enumeration with
+	// the rich / normal parameter sets, all sorts, all contents
 	g := &qm.Gen{DB: qm.Variants()["small"], Outer: 2, Inner: 1}
 	for _, q := range g.Queries(2) {
 		out = append(out, work{q, all})
@@ -422,7 +426,7 @@ func main() {
 			"table statistics profiles only scale Nrows/Size seen by the optimizer (as the repo's sizeTran test helper); not used for bare 'summarize count'",
 			"values: integers, strings, '' and booleans; no negative decimals (F1 is C13's subject)",
 		},
-		QuickBudget: 75, ThoroughBudget: 1200,
+		QuickBudget: 60, ThoroughBudget: 840,
 		Procs: 16,
 		Run:   run, Replay: replay,
 	})
